@@ -438,7 +438,9 @@ static size_t memory_share (svalue_t * sv) {
       /* first svalue is stored inside the array struct, so sizeof(array_t)
        * includes one svalue.
        */
-      if (size_walk_seen (sv->u.arr))
+      /* the static empty array is shared by everybody and is not allocated; its reference count is
+       * not kept balanced (it can be 0), so it must not be used as a divisor */
+      if (sv->u.arr == &the_null_array || size_walk_seen (sv->u.arr))
         return total;
       subtotal = sizeof (array_t) - sizeof (svalue_t);
       for (i = 0; i < sv->u.arr->size; i++)
